@@ -7,6 +7,7 @@ R17.3 registries: keyword -> id -> function tables are total and map each id to 
 R17.4 formula shape of the bounds: the phase sum is taken before the non-linear Hashin-Shtrikman map; Wiener / labyrinth forms
 R17.5 T-PURE: averaging rules do not write into the (cached) mobility / phase-fraction arrays
 R17.8 T-PURE: neither do the post-process functions (they work on copies)
+R17.9 index spaces: argmax/argmin over a masked selection is not used as a row of the unfiltered array
 """
 from __future__ import annotations
 import ast
@@ -244,6 +245,32 @@ def r172_r175(repo, ctx, purity):
             else:
                 ctx.ok('R17.8', HP, fn, f, f'no in-place write through an alias of {p}', construct=f'{fn}({p})')
     ctx.floor('R17.8', m, 8)
+    # R17.9 index spaces: the position returned by argmax/argmin over a masked (filtered) array counts within the selection; it
+    # addresses the right row only in an array filtered by the same mask
+    k = 0
+    for fn in POST + AVG:
+        if not repo.has_func(HP, fn):
+            continue
+        f = repo.func(HP, fn)
+        k += 1
+        for a in ast.walk(f):
+            if not (isinstance(a, ast.Assign) and len(a.targets) == 1 and isinstance(a.targets[0], ast.Name) and isinstance(a.value, ast.Call)
+                    and (U.call_name(a.value) or '') in ('np.argmax', 'np.argmin', 'np.nanargmax', 'np.nanargmin') and a.value.args):
+                continue
+            X = a.value.args[0]
+            if not (isinstance(X, ast.Subscript) and not isinstance(X.slice, (ast.Slice, ast.Constant, ast.Tuple)) and not
+                    (isinstance(X.slice, ast.UnaryOp) and isinstance(X.slice.operand, ast.Constant))):
+                continue
+            mask, idx = U.src(X.slice), a.targets[0].id
+            for u in ast.walk(f):
+                if isinstance(u, ast.Subscript) and u is not X:
+                    first = u.slice.elts[0] if isinstance(u.slice, ast.Tuple) and u.slice.elts else u.slice
+                    if isinstance(first, ast.Name) and first.id == idx:
+                        same = isinstance(u.value, ast.Subscript) and U.src(u.value.slice) == mask
+                        if not same:
+                            ctx.violation('R17.9', HP, fn, u, f'{idx} is a position within the selection [{mask}] (it comes from {U.src(a.value)[:60]}) but indexes the rows of the unfiltered array '
+                                          f'{U.src(u.value)[:40]}: whenever an excluded row precedes the selected one, another phase\'s row is addressed', construct=f'{fn}: {U.src(u)[:60]}')
+    ctx.ok('R17.9', HP, '', 0, f'{k} functions: no position taken within a masked selection is used as a row of an unfiltered array', construct='index spaces')
 
 
 def r173(repo, ctx, index):
